@@ -732,6 +732,29 @@ int vnacal_save(vnacal_t *vcp, const char *pathname)
 	if (calp == NULL) {
 	    continue;
 	}
+
+	/*
+	 * The frequencies have to stay strictly ascending when printed
+	 * with the requested number of digits: vnacal_load refuses
+	 * anything else.
+	 */
+	if (vcp->vc_fprecision < 17) {
+	    for (int findex = 1; findex < calp->cal_frequencies; ++findex) {
+		char b0[64], b1[64];
+
+		(void)snprintf(b0, sizeof(b0), "%.*e", vcp->vc_fprecision - 1,
+			calp->cal_frequency_vector[findex - 1]);
+		(void)snprintf(b1, sizeof(b1), "%.*e", vcp->vc_fprecision - 1,
+			calp->cal_frequency_vector[findex]);
+		if (!(strtod(b1, NULL) > strtod(b0, NULL))) {
+		    _vnacal_error(vcp, VNAERR_USAGE, "vnacal_save: "
+			    "calibration %s: a frequency precision of %d "
+			    "digits cannot tell %s from its neighbour",
+			    calp->cal_name, vcp->vc_fprecision, b1);
+		    goto error;
+		}
+	    }
+	}
 	_vnacal_layout(&vl, calp->cal_type, calp->cal_rows, calp->cal_columns);
 	t_calibration = yaml_document_add_mapping(&document, NULL,
 		YAML_ANY_MAPPING_STYLE);
